@@ -13,6 +13,7 @@ Crashes are keyed by raise site (responsible platform function + exception type 
 """
 import itertools
 import os
+import re
 import traceback
 
 from vf.monitor import Probes
@@ -381,7 +382,9 @@ class Checker(object):
                 ctx.remember(fn.__module__ + ":" + fn.__qualname__, [u], dict(kw or {}), v, cap=4000)
             return True, v
         except Exception as e:
-            if convert and isinstance(e, TypeError) and truth is not True and "raise TypeError" in ctx_site_line(e):
+            # the documented error of convert_* on a foreign URL: a TypeError raised on purpose (told from an accidental one - 'NoneType' object
+            # is not ..., expected str ... - by its raise site or, when the raise goes through a helper, by its message "... is not a <platform> url")
+            if convert and isinstance(e, TypeError) and truth is not True and ("raise TypeError" in ctx_site_line(e) or re.search(r"(?i)\bnot an? \w+ url\b", str(e))):
                 ctx.count("convert-typeerror-foreign")
                 return False, None
             key = crash_key(ctx, name, e)
